@@ -254,9 +254,15 @@ def r_getvar(model, rep):
                 ok = val is not None and T.contains(val, lambda x: x[0] in ("param", "phi", "boolop") and T.contains(x, lambda y: y == ("param", "types")))
                 why = "recursive call drops the types filter"
                 if ok:
-                    # "self" must be removed for the children
-                    ok = T.contains(val, lambda x: x == ("const", "self"))
-                    why = "recursive call must not pass the pseudo-type 'self' on"
+                    # "self" must be removed for the children - and everything else kept: a filter `x != "self"` over types
+                    def drops_self(x):
+                        if x[0] != "comp" or len(x[3]) != 1 or len(x[3][0][2]) != 1:
+                            return False
+                        var_ = ("bound", x[3][0][0][1])
+                        c_, pol_ = facts.canon_guard_pair((x[3][0][2][0], True))
+                        return x[2] == var_ and not pol_ and c_[0] == "cmp" and c_[1] == ("==",) and set(c_[2]) == {var_, ("const", "self")}
+                    ok = T.contains(val, drops_self) or (T.contains(val, lambda x: x == ("const", "self")) and not T.contains(val, lambda x: x[0] == "comp"))
+                    why = "recursive call must pass on every requested type except the pseudo-type 'self'"
             rep.ob("R-GETVAR", "get_variants:recursion-forwards-%s" % p, ok, site=cx.site(ev.lineno), msg="" if ok else why)
         gpos = [g for g in T.guard_tests(ev) if not (g[0] == ("param", "recursive") and g[1])]
         extra = [g for g in gpos if g not in ap.guards]
